@@ -201,6 +201,8 @@ class FormulaGen:
                 body = f"(>= (str.to.int {n}) 0)"
         return f"{kind} int {n}: {body}"
 
-    def constraint(self, depth: int = 3) -> str:
+    def constraint(self, depth: int = 3, root_type: str = "<start>") -> str:
         self.counter = 0
-        return self.quantifier([("start", "<start>")], depth)
+        if self.allow_int and self.rng.random() < 0.25:
+            return self.int_quantifier([("start", root_type)], depth)
+        return self.quantifier([("start", root_type)], depth)
